@@ -2,6 +2,7 @@ CONSTANTS
   STAR = "*"
   QM = "?"
   COLON = ":"
+  Fold <- TrFold
   Dev = {}
   Apps = {}
   Reqs = {}
